@@ -750,6 +750,21 @@ void set_alloc_callbacks(std::function<void(Block&)> on_alloc, std::function<voi
 }
 void set_mutex_unlock_callback(std::function<void()> fn) { g.on_mutex_unlock = std::move(fn); }
 void ledger_set_tracking(bool on) { g.track = on; }
+std::string qsbr_idle_selftest() {
+  HooksOff off;
+  auto& q = unodb::qsbr::instance();
+  const auto s0 = q.get_state();
+  const auto n0 = unodb::qsbr_state::get_thread_count(s0);
+  if (n0 != 1) return "QSBR reports " + std::to_string(n0) + " registered threads after every thread but one has exited";
+  const auto e0 = unodb::qsbr_state::get_epoch(s0);
+  unodb::this_thread().quiescent();
+  const auto s1 = q.get_state();
+  if (unodb::qsbr_state::get_thread_count(s1) != 1 || !(unodb::qsbr_state::get_epoch(s1) == e0.advance()))
+    return "a quiescent state of the only registered thread did not advance the epoch by one (threads-in-previous-epoch count left at " +
+           std::to_string(unodb::qsbr_state::get_threads_in_previous_epoch(s0)) + " with " + std::to_string(n0) + " thread registered): the epoch is stuck";
+  return "";
+}
+
 void ledger_forget_all() {
   for (auto& kv : g.ledger) unpoison(kv.second);
   g.ledger.clear();
